@@ -53,7 +53,7 @@ var factors = []factor{
 	{"storage.sql.connection", []string{"unset", "sqlite-file"}, []string{"sqlite-memory"}},
 	{"auth.contractvalidators", []string{"default", "dummy", "irma", "employeeid"}, []string{"irma+employeeid", "uzi"}},
 	{"auth.irma.schememanager", []string{"unset", "pbdf", "irma-demo"}, nil},
-	{"jsonld.contexts.remoteallowlist", []string{"default", "empty", "custom"}, nil},
+	{"jsonld.contexts.remoteallowlist", []string{"default", "empty", "custom", "custom-shapes"}, nil},
 	{"didmethods", []string{"unset", "web", "nuts", "web+nuts"}, []string{"nuts+web"}},
 	{"channel", []string{"file", "env", "flags", "mixed"}, nil},
 	{"secret", []string{"none", "env", "file", "cli"}, nil},
@@ -359,8 +359,8 @@ func materialise(c config, dir string, w world) launch {
 	switch c.V[fJSONLD] {
 	case "empty":
 		opts = append(opts, option{key: "jsonld.contexts.remoteallowlist", value: []string{}, force: "file"})
-	case "custom":
-		add("jsonld.contexts.remoteallowlist", []string{listedContext, "https://schema.org"})
+	case "custom", "custom-shapes":
+		add("jsonld.contexts.remoteallowlist", remoteAllowList(c.V[fJSONLD]))
 		l.Spec.ListedCtx = listedContext
 	}
 	switch c.V[fDID] {
@@ -669,7 +669,7 @@ func fakeVault() *httptest.Server {
 	}))
 }
 
-func runOne(c config, w world) result {
+func runOne(c config, w world, thorough bool) result {
 	res := result{c: c}
 	why := ""
 	for try := 1; try <= 3; try++ {
@@ -681,6 +681,7 @@ func runOne(c config, w world) result {
 		l := materialise(c, dir, w)
 		l.Spec.DummyProbe = true
 		l.Spec.Outbound = outboundClasses()
+		l.Spec.Contexts, l.Spec.Carriers = contextBattery(c, thorough)
 		infrastructure(&l, dir)
 		o := runChild(dir, l)
 		os.RemoveAll(dir)
@@ -727,6 +728,7 @@ func TestCheck(t *testing.T) {
 	w := world{vaultAddr: vault.URL, pki: filepath.Join(repoDir(), "test", "pki")}
 
 	cases := generate(r, secrets)
+	thorough := r.Thorough()
 	results := make([]result, len(cases))
 	var wg sync.WaitGroup
 	work := make(chan int)
@@ -735,7 +737,7 @@ func TestCheck(t *testing.T) {
 		go func() {
 			defer wg.Done()
 			for i := range work {
-				results[i] = runOne(cases[i], w)
+				results[i] = runOne(cases[i], w, thorough)
 			}
 		}()
 	}
@@ -749,6 +751,7 @@ func TestCheck(t *testing.T) {
 		evaluate(r, res)
 	}
 	coverage(r, cases)
+	batteryCoverage(r, cases)
 	outboundDirect(t, r)
 }
 
@@ -915,6 +918,7 @@ func evaluateProbes(r *ev.Run, res result, mode string) {
 			evaluateOutbound(r, "node", strict, p, w)
 		}
 	}
+	evaluateContexts(r, res, mode)
 	for _, must := range []string{"dummy-session", "jsonld-unlisted", "outbound"} {
 		if !seen[must] {
 			r.Inconclusive("running node without " + must + " probe result")
